@@ -7,7 +7,7 @@ use tracing_core::{
 };
 use tracing_subscriber::{
     layer::{Context, Filter},
-    registry::LookupSpan,
+    registry::{LookupSpan, SpanRef},
     Layer,
 };
 
@@ -177,6 +177,12 @@ impl SharedStorage {
     }
 }
 
+/// IDs of a span in the storages capturing it, keyed by the storage address. Several capture
+/// layers can be attached to the same subscriber; span extensions are keyed by type, so each layer
+/// must only look at the ID belonging to its own storage.
+#[derive(Debug)]
+struct CapturedSpanIds(Vec<(usize, CapturedSpanId)>);
+
 /// Tracing [`Layer`] that captures (optionally filtered) spans and events.
 ///
 /// The layer can optionally filter spans and events in addition to global [`Subscriber`] filtering.
@@ -239,6 +245,18 @@ where
             .map_or(true, |filter| filter.enabled(metadata, ctx))
     }
 
+    fn storage_key(&self) -> usize {
+        Arc::as_ptr(&self.storage) as usize
+    }
+
+    /// Returns the ID of the span in the storage of this layer, if the span is captured there.
+    fn captured_id(&self, span: &SpanRef<'_, S>) -> Option<CapturedSpanId> {
+        let key = self.storage_key();
+        let extensions = span.extensions();
+        let ids = extensions.get::<CapturedSpanIds>()?;
+        ids.0.iter().find_map(|&(k, id)| (k == key).then_some(id))
+    }
+
     fn lock(&self) -> impl ops::DerefMut<Target = Storage> + '_ {
         self.storage
             .write()
@@ -256,18 +274,25 @@ where
         }
 
         let parent_id = if let Some(mut scope) = ctx.span_scope(id) {
-            scope.find_map(|span| span.extensions().get::<CapturedSpanId>().copied())
+            scope.find_map(|span| self.captured_id(&span))
         } else {
             None
         };
         let values = TracedValues::from_values(attrs.values());
         let arena_id = self.lock().push_span(attrs.metadata(), values, parent_id);
-        ctx.span(id).unwrap().extensions_mut().insert(arena_id);
+        let span = ctx.span(id).unwrap();
+        let mut extensions = span.extensions_mut();
+        let key = self.storage_key();
+        if let Some(ids) = extensions.get_mut::<CapturedSpanIds>() {
+            ids.0.push((key, arena_id));
+        } else {
+            extensions.insert(CapturedSpanIds(vec![(key, arena_id)]));
+        }
     }
 
     fn on_record(&self, id: &Id, values: &Record<'_>, ctx: Context<'_, S>) {
         let span = ctx.span(id).unwrap();
-        if let Some(id) = span.extensions().get::<CapturedSpanId>().copied() {
+        if let Some(id) = self.captured_id(&span) {
             self.lock().on_record(id, TracedValues::from_record(values));
         };
     }
@@ -278,7 +303,7 @@ where
         }
 
         let parent_id = if let Some(mut scope) = ctx.event_scope(event) {
-            scope.find_map(|span| span.extensions().get::<CapturedSpanId>().copied())
+            scope.find_map(|span| self.captured_id(&span))
         } else {
             None
         };
@@ -288,21 +313,21 @@ where
 
     fn on_enter(&self, id: &Id, ctx: Context<'_, S>) {
         let span = ctx.span(id).unwrap();
-        if let Some(id) = span.extensions().get::<CapturedSpanId>().copied() {
+        if let Some(id) = self.captured_id(&span) {
             self.lock().on_span_enter(id);
         };
     }
 
     fn on_exit(&self, id: &Id, ctx: Context<'_, S>) {
         let span = ctx.span(id).unwrap();
-        if let Some(id) = span.extensions().get::<CapturedSpanId>().copied() {
+        if let Some(id) = self.captured_id(&span) {
             self.lock().on_span_exit(id);
         };
     }
 
     fn on_close(&self, id: Id, ctx: Context<'_, S>) {
         let span = ctx.span(&id).unwrap();
-        if let Some(id) = span.extensions().get::<CapturedSpanId>().copied() {
+        if let Some(id) = self.captured_id(&span) {
             self.lock().on_span_closed(id);
         };
     }
@@ -312,8 +337,8 @@ where
         let (Some(span), Some(follows)) = (ctx.span(id), ctx.span(follows_id)) else {
             return;
         };
-        if let Some(id) = span.extensions().get::<CapturedSpanId>().copied() {
-            if let Some(follows_id) = follows.extensions().get::<CapturedSpanId>().copied() {
+        if let Some(id) = self.captured_id(&span) {
+            if let Some(follows_id) = self.captured_id(&follows) {
                 self.lock().on_follows_from(id, follows_id);
             }
         };
